@@ -386,4 +386,53 @@ Section Sess.
     destruct (p_body (plan_of c (od_t o))); [reflexivity|].
     destruct (body_all c txn rest) as [ev ok]. cbn. exact IH.
   Qed.
+  (* LMTP: the reply of recipient r is a success only if every delivery r was added to got the
+     body and was committed *)
+  Definition r_ok (sts : list (N * bool)) (r : N) : bool :=
+    forallb (fun x : N * bool => negb (fst x =? r) || snd x) sts.
+
+  Lemma r_ok_app a b r : r_ok (a ++ b) r = r_ok a r && r_ok b r.
+  Proof. unfold r_ok. apply forallb_app. Qed.
+  Lemma r_ok_const_false l r : In r l -> r_ok (map (fun r => (r, false)) l) r = false.
+  Proof.
+    induction l as [|x l IH]; [intros []|]. intros [H|H]; unfold r_ok in *; cbn [map forallb fst snd].
+    - subst. rewrite N.eqb_refl. reflexivity.
+    - rewrite (IH H). apply Bool.andb_false_r.
+  Qed.
+
+  Lemma body_na_ok txn r : forall sub ev1 sub' sts,
+    body_na c txn sub = (ev1, sub', sts) -> r_ok sts r = true ->
+    forall o, In o sub -> In r (od_rcpts o) -> od_bodyfailed o = false ->
+      In o sub' /\ (In (txn, od_t o, od_i o, EBodyNA true) ev1 \/ In (txn, od_t o, od_i o, EBody true) ev1).
+  Proof.
+    induction sub as [|o rest IH]; intros ev1 sub' sts H Hr o' Ho' Hin Hb; [destruct Ho'|].
+    cbn [body_na] in H. destruct (body_na c txn rest) as [[ev os] st'] eqn:E.
+    destruct (p_partial (plan_of c (od_t o))) eqn:Ep.
+    - inversion H; subst. rewrite r_ok_app in Hr. apply andb_true_iff in Hr. destruct Hr as [Hr1 Hr2].
+      destruct Ho' as [->|Ho'].
+      + destruct (p_body (plan_of c (od_t o'))) eqn:Eb.
+        * cbn [negb] in Hr1. rewrite (r_ok_const_false _ _ Hin) in Hr1. discriminate.
+        * split; [left; reflexivity|left; left; reflexivity].
+      + destruct (IH ev os st' eq_refl Hr2 o' Ho' Hin Hb) as [A [B|B]]; (split; [right; exact A|]); [left|right]; right; exact B.
+    - destruct (p_body (plan_of c (od_t o))) eqn:Eb; inversion H; subst.
+      + rewrite r_ok_app in Hr. apply andb_true_iff in Hr. destruct Hr as [Hr1 Hr2].
+        destruct Ho' as [->|Ho'].
+        * rewrite (r_ok_const_false _ _ Hin) in Hr1. discriminate.
+        * destruct (IH ev os st' eq_refl Hr2 o' Ho' Hin Hb) as [A [B|B]]; (split; [right; exact A|]); [left|right]; right; exact B.
+      + destruct Ho' as [->|Ho'].
+        * split; [left; reflexivity|right; left; reflexivity].
+        * destruct (IH ev os sts eq_refl Hr o' Ho' Hin Hb) as [A [B|B]]; (split; [right; exact A|]); [left|right]; right; exact B.
+  Qed.
+
+  Lemma lmtp_success_means_committed txn sub ev1 sub' sts ev2 cok r :
+    body_na c txn sub = (ev1, sub', sts) -> commit_all c txn sub' false false = (ev2, cok) ->
+    r_ok sts r && cok = true ->
+    forall o, In o sub -> In r (od_rcpts o) -> od_bodyfailed o = false ->
+      (In (txn, od_t o, od_i o, EBodyNA true) ev1 \/ In (txn, od_t o, od_i o, EBody true) ev1) /\
+      In (txn, od_t o, od_i o, ECommit true) ev2.
+  Proof.
+    intros H1 H2 H o Ho Hin Hb. apply andb_true_iff in H. destruct H as [Hr Hc]. subst cok.
+    destruct (body_na_ok txn r sub ev1 sub' sts H1 Hr o Ho Hin Hb) as [A B].
+    split; [exact B|]. exact (proj2 (commit_all_ok txn sub' false ev2 H2) o A Hb).
+  Qed.
 End Sess.
